@@ -20,6 +20,8 @@ def classify(f):
         return "proto/%s/%s/panic" % (lang, ev.get("ev")), ev
     if ev.get("out") == "fatal":
         return "proto/%s/%s/fatal" % (lang, ev.get("ev")), ev
+    if ev.get("out") == "hang":
+        return "proto/%s/%s/hang" % (lang, ev.get("ev")), ev
     if ev.get("ev") == "Next":
         prev = [x for x in tr if x["i"] < f["i"] and x["ev"] == "Next"]
         n = tr[0].get("len", 0)
@@ -47,7 +49,10 @@ def judge(ck, fails, origin):
         if rep is False:
             ck.fatal("rejected trace did not reproduce: %s" % sig)
         lang, inp = protolib.input_of(f["trace"])
-        ck.violation(sig, "%s on input %s: event %s rejected by NextProtocol.tla" % (lang, json.dumps(protolib.as_text(inp)), json.dumps(ev)[:300]),
+        nest = f["trace"][0].get("nest")
+        shown = json.dumps(protolib.as_text(inp)) if inp is not None or not nest else "%s + %s x %d (%s) ..." % (
+            json.dumps(nest.get("pre")), json.dumps(nest.get("open")), nest.get("depth", 0), nest.get("variant"))
+        ck.violation(sig, "%s on input %s: event %s rejected by NextProtocol.tla" % (lang, shown, json.dumps(ev)[:300]),
                      {"suite": "lexers", "origin": origin, "lang": lang, "input": inp, "gen": f["trace"][0].get("nest"),
                       "trace": f["trace"][: f["i"] + 1][-12:], "rejected_event_index": f["i"],
                       "how": "bin/check C01 --replay <this file> runs the input through the entry point again and validates the trace with spec/proto/ProtoTrace.tla"})
